@@ -478,6 +478,29 @@ fn strip_locations(j: &mut J) {
     }
 }
 
+/// the parse tree with an explicit leading `this` of a longer query removed
+/// (`this.a.b` and `a.b`: the part stands for the current scope and selects nothing)
+pub fn strip_leading_this(j: &mut J) {
+    match j {
+        J::Object(m) => {
+            if let Some(J::Array(q)) = m.get_mut("query") {
+                if q.len() > 1 && q[0] == json!("This") {
+                    q.remove(0);
+                }
+            }
+            for v in m.values_mut() {
+                strip_leading_this(v);
+            }
+        }
+        J::Array(a) => {
+            for v in a {
+                strip_leading_this(v);
+            }
+        }
+        _ => {}
+    }
+}
+
 /// `cfn-guard parse-tree --print-json` run in-process on a rules text: the AST with locations
 /// removed, or an error / panic marker
 pub fn parse_tree(rules: &str) -> J {
